@@ -27,7 +27,10 @@ type tnode struct {
 	Unsorted bool
 }
 
-var treeNamePool = []string{"a", "b", "c d", "é", "00", "A1x", ".", "..", "x.txt", "漢字", "%41", "0A", "FF", "n1", "n2", "n3", "n4", "\xff\xfe", "a\nb", " "}
+var treeNamePool = []string{"a", "b", "c d", "é", "00", "A1x", ".", "..", "x.txt", "漢字", "%41", "0A", "FF", "n1", "n2", "n3", "n4", "\xff\xfe", "a\nb", " ",
+	// numeric-looking names (a path segment that parses as an index is still a name) and names around / beyond 255 bytes
+	"0", "7", "007", "-1", "2024", "9223372036854775807",
+	"L255" + strings.Repeat("x", 251), "L256" + strings.Repeat("x", 252), "L257" + strings.Repeat("x", 253), "L300" + strings.Repeat("x", 296), "L1000" + strings.Repeat("x", 995)}
 
 // genTreeNames draws distinct entry names without '/' (a path separator) for one directory.
 func genTreeNames(t *rapid.T, max int) []string {
@@ -74,7 +77,9 @@ func genTree(t *rapid.T, depth, maxKids int) *tnode {
 }
 
 // genBuilderTree draws trees written exclusively by the builders under test.
-func genBuilderTree(t *rapid.T, depth, maxKids int) *tnode { return genTreeOpt(t, depth, maxKids, treeOpts{}) }
+func genBuilderTree(t *rapid.T, depth, maxKids int) *tnode {
+	return genTreeOpt(t, depth, maxKids, treeOpts{})
+}
 
 func genTreeOpt(t *rapid.T, depth, maxKids int, o treeOpts) *tnode {
 	if rapid.IntRange(0, 9).Draw(t, "rootisfile") == 0 {
